@@ -251,7 +251,53 @@ def same_cells(a, b):
     return a is b
 
 
+def deepcopy_memo(sk, n, x, memo):
+    """copy.deepcopy(x, memo) with the memo contract: an object whose id is in memo is replaced by the memo value; containers are copied
+    recursively; an object of the class hierarchy is copied through its own __deepcopy__"""
+    if id(x) in memo:
+        return memo[id(x)]
+    if isinstance(x, Bag) and isinstance(x._cls, tuple):
+        fi = sk.m.lookup(x._cls, '__deepcopy__', 'methods')
+        if fi is not None:
+            return sk.call(fi, [x, memo], {})
+    if isinstance(x, Bag) and '__deepcopy__' in x._a:
+        return x._a['__deepcopy__'](x)
+    if isinstance(x, list):
+        r = []
+        memo[id(x)] = r
+        r.extend(deepcopy_memo(sk, n, y, memo) for y in x)
+        return r
+    if isinstance(x, dict):
+        r = {}
+        memo[id(x)] = r
+        for k, v in x.items():
+            r[k] = deepcopy_memo(sk, n, v, memo)
+        return r
+    if isinstance(x, tuple):
+        return tuple(deepcopy_memo(sk, n, y, memo) for y in x)
+    return x
+
+
+def _shallowcopy(sk, n, x):
+    if isinstance(x, Bag) and isinstance(x._cls, tuple):
+        fi = sk.m.lookup(x._cls, '__copy__', 'methods')
+        if fi is not None:
+            return sk.call(fi, [x], {})
+        b = Bag(x._cls)
+        b._a.update(x._a)
+        return b
+    if isinstance(x, list):
+        return list(x)
+    if isinstance(x, dict):
+        return dict(x)
+    return x
+
+
 def _deepcopy_tracked(sk, n, x, *memo):
+    if memo and isinstance(memo[0], dict):
+        return deepcopy_memo(sk, n, x, memo[0])
+    if isinstance(x, Bag) and isinstance(x._cls, tuple) and sk.m.lookup(x._cls, '__deepcopy__', 'methods') is not None and sk.follow_deepcopy:
+        return deepcopy_memo(sk, n, x, {})
     r = deepcopy_(x)
     if isinstance(x, list):
         sk.copies.setdefault(id(x), (x, []))[1].append(r)
@@ -275,6 +321,7 @@ class SK(object):
         self.steps = 0
         self.decisions = None       # None: undecidable float comparisons are unsupported; list: replayed / extended fork decisions
         self.trace = []
+        self.follow_deepcopy = False    # copy.deepcopy(obj) of a class-keyed object runs the class's own __deepcopy__
         self.generic_eq = 0         # number of ==/!= tests between an abstract float and a number decided by genericity
         self.exact = False          # exact mode: literal initial fills take part in arithmetic as their numbers (symbolic drivers)
         self.text = False           # text mode: strings are concrete (str(), +, join are faithful; an abstract float prints as <label>)
@@ -299,6 +346,8 @@ class SK(object):
         if imp and imp[0] == 'ext':
             if imp[1] == 'copy.deepcopy':
                 return BUILTINS['deepcopy']
+            if imp[1] == 'copy.copy':
+                return BUILTINS['shallowcopy']
             if imp[1] in ('functools.reduce',):
                 raise Unsupported('functools.reduce')
             if imp[1] == 'functools.partial':
@@ -336,6 +385,8 @@ class SK(object):
         if isinstance(b, ModRef):
             if b.name == 'ext:copy' and e.attr == 'deepcopy':
                 return BUILTINS['deepcopy']
+            if b.name == 'ext:copy' and e.attr == 'copy':
+                return BUILTINS['shallowcopy']
             if b.name == 'ext:bisect' and e.attr in ('bisect_left', 'bisect_right', 'bisect'):
                 return BUILTINS[e.attr]
             if b.name == 'ext:math':
@@ -346,6 +397,10 @@ class SK(object):
         if isinstance(b, Bag):
             if e.attr in b._a:
                 return b._a[e.attr]
+            if e.attr == '__dict__':
+                return b._a                                   # the live attribute dictionary
+            if e.attr == '__class__' and isinstance(b._cls, tuple):
+                return ('class', b._cls)
             cls = b._cls
             if isinstance(cls, tuple):
                 fi = self.m.lookup(cls, e.attr, 'methods')
@@ -362,6 +417,12 @@ class SK(object):
             if ('method', fi.key) in self.abstracted:
                 return self.abstracted[('method', fi.key)]
             return FnRef(fi, bound=b.obj)
+        if isinstance(b, tuple) and len(b) == 2 and b[0] == 'class' and e.attr == '__new__':
+            return Py(lambda sk, node, c, *a, **k: Bag(c[1]) if isinstance(c, tuple) and c and c[0] == 'class' else {}, '__new__')
+        if isinstance(b, dict) and e.attr == '__new__':
+            return Py(lambda sk, node, *a, **k: {}, 'dict.__new__')
+        if isinstance(b, dict) and e.attr in ('update', 'setdefault', 'copy', 'clear'):
+            return Py(lambda sk, node, *a, _b=b, _n=e.attr, **k: getattr(_b, _n)(*a, **k), 'dict.' + e.attr)
         if isinstance(b, dict) and e.attr in ('get', 'pop', 'items', 'keys', 'values'):
             return Py(lambda sk, node, *a, _b=b, _n=e.attr: getattr(_b, _n)(*a), 'dict.' + e.attr)
         if isinstance(b, list) and e.attr in ('append', 'extend', 'insert', 'pop', 'reverse', 'index', 'count', 'sort'):
@@ -372,6 +433,8 @@ class SK(object):
             return Py(lambda sk, node, *a, _b=b, _n=e.attr, **k: getattr(_b, _n)(*[list(x) if hasattr(x, '__next__') else x for x in a], **k), 'str.' + e.attr)
         if isinstance(b, str) and e.attr in ('format', 'join'):
             return Py(lambda sk, node, *a, **k: '', 'str')
+        if isinstance(b, str) and e.attr in ('endswith', 'startswith', 'lower', 'upper'):
+            return Py(lambda sk, node, *a, _b=b, _n=e.attr: getattr(_b, _n)(*a), 'str.' + e.attr)
         if b is None:
             raise Violation('SK2', 'attribute %s of None' % e.attr, e)
         raise Unsupported('attribute %s on %s' % (e.attr, type(b).__name__))
@@ -952,6 +1015,9 @@ BUILTINS = {
     'zip': Py(lambda sk, n, *a: list(zip(*[sk.iterate(x, n) for x in a])), 'zip'),
     'enumerate': Py(lambda sk, n, x, *s: list(enumerate(sk.iterate(x, n), *s)), 'enumerate'),
     'isinstance': Py(_isinst, 'isinstance'), 'list': Py(lambda sk, n, *a: list(*a), 'list'), 'tuple': Py(lambda sk, n, *a: tuple(*a), 'tuple'),
+    'shallowcopy': Py(_shallowcopy, 'copy.copy'), 'id': Py(lambda sk, n, x: id(x), 'id'), 'setattr': Py(lambda sk, n, ob, k, v: ob._a.__setitem__(k, v), 'setattr'),
+    'getattr': Py(lambda sk, n, ob, k, *d: ob._a[k] if k in ob._a else (d[0] if d else (_ for _ in ()).throw(Violation('SK2', 'getattr: no attribute %s' % k, n))), 'getattr'),
+    'hasattr': Py(lambda sk, n, ob, k: isinstance(ob, Bag) and k in ob._a, 'hasattr'),
     'dict': Py(lambda sk, n, *a, **k: dict(*a, **k), 'dict'), 'deepcopy': Py(_deepcopy_tracked, 'deepcopy'),
     'sum': Py(_sum, 'sum'), 'reversed': Py(lambda sk, n, x: list(reversed(x)), 'reversed'), 'sorted': Py(lambda sk, n, x: sorted(x), 'sorted'),
     'partial': Py(lambda sk, n, f, *a, **k: Py(lambda sk2, n2, *a2, _f=f, _a=a, _k=k, **k2: sk2.apply(_f, list(_a) + list(a2), dict(_k, **k2), n2), 'partial'), 'partial'),
